@@ -352,7 +352,15 @@ def pages(draw):
 @st.composite
 def cases(draw):
     data = draw(qgen.datasets())
-    kind = draw(st.sampled_from(['plain', 'plain', 'extra', 'extra', 'paged']))
+    kind = draw(st.sampled_from(['plain', 'plain', 'extra', 'extra', 'extra', 'paged', 'paged', 'chain']))
+    if kind == 'chain':
+        # the same single-loop query built by a CHAIN of Query methods: each method starts from the translator the previous left
+        q = draw(qgen.queries(kinds=('obj',))) if draw(st.booleans()) else draw(extra_queries())
+        if len(q['loops']) == 1 and q['result'][0] == 'obj' and q.get('cond') is not None:
+            chain = draw(st.sampled_from([['order', 'filter'], ['order', 'where'], ['filter', 'order'], ['order', 'order', 'filter'],
+                                          ['order', 'filter', 'order'], ['filter'], ['where', 'order']]))
+            return {'data': data, 'query': q, 'page': None, 'chain': chain}
+        return {'data': data, 'query': q, 'page': None}
     if kind == 'plain':
         q = draw(qgen.queries())
         page = None
